@@ -510,8 +510,9 @@ def slice_dim(f, slicedef, fuzzydim=True):
             p2p.addVariable(inf, outf, varkey)
         else:
             axis = list(var.dimensions).index(dimkey)
+            # copy: a basic slice is a view of the input file's array
             vout = var[...].swapaxes(
-                0, axis)[dmin:dmax:dstride].swapaxes(0, axis)
+                0, axis)[dmin:dmax:dstride].swapaxes(0, axis).copy()
 
             newlen = vout.shape[axis]
             newdim = outf.createDimension(dimkey, newlen)
